@@ -32,9 +32,27 @@ TEXT = {
         technique='loop invariants against an uninterpreted Cox-de Boor spec function, explicit instantiation, z3'),
 }
 
+TEXT['C11'] = dict(
+    category='proof',
+    text='The v-parallel kernel and its dispatcher are verified for all inputs against the rule of the property: f[i] is the '
+         'interpolant S at v_i inside [vMin,vMax]; outside it is f_eq(r, v_i), 0, or S at the periodic image (recursive orbit '
+         'definition), with termination of both wrap loops by real-valued variants. The evaluator is a function parameter with '
+         'an abstract contract that both real evaluators are registered to implement.',
+    note=PROOF_NOTE + 'Not yet under contract in this check: VParallelAdvection.step (foot = v - c*dt, edge-mode mapping) and the '
+         'grid-level speed lookup; they are listed as uncovered in the evidence until their contracts discharge.',
+    technique='loop invariants, recursive spec function for the periodic image, modular function-parameter contracts, z3')
+TEXT['C10'] = dict(
+    category='proof',
+    text='flux_advection (f[q,z] = sum_k w_k vals[z,q,k]) and general_get_lagrange_vals / get_lagrange_vals (vals[(i-s_j) mod nz, '
+         'k, j] = S((q_k + thetaShift_j) mod 2pi), nothing else written) are verified for all shapes, shifts of either sign and '
+         'both evaluator families, frames included.',
+    note=PROOF_NOTE + 'Range of the real floor-modulo is a trusted arithmetic fact. Not yet under contract here: '
+         'FluxSurfaceAdvection._getLagrangePts (stencil, weights, theta shifts) and step(); listed as uncovered in the evidence.',
+    technique='loop invariants with frame clauses over 3-index arrays, modular function-parameter contracts, z3')
+
 NOT_APPLICABLE = {
     'C19': 'compares compiled pyccel artefacts with their Python source: translation validation; no deductive verifier for the '
            'generated Fortran/C is installed (DESIGN.md, C19)',
 }
-for _p in ['C01', 'C02', 'C03', 'C04', 'C05', 'C06', 'C08', 'C09', 'C10', 'C11', 'C12', 'C13', 'C14', 'C15', 'C17', 'C18']:
+for _p in ['C01', 'C02', 'C03', 'C04', 'C05', 'C06', 'C08', 'C09', 'C12', 'C13', 'C14', 'C15', 'C17', 'C18']:
     NOT_APPLICABLE[_p] = 'check not built yet in this session (planned, see DESIGN.md); not claimed until its contracts discharge'
